@@ -83,7 +83,28 @@ template <typename TL> static void tl_u64(int round, int tid, int k, Rng& r, boo
   rp->addr[k] = &a.Get();
   if ((tid + k + round) % 3 == 0) a.Clear();          // some slots are left initialised when the thread exits
 }
+// every slot-tag form on ONE value type: privacy per (T, Slot) pair means these nine are nine different thread-local values
+using X0 = nop::ThreadLocal<uint32_t>; using X1 = nop::ThreadLocal<uint32_t, nop::ThreadLocalSlot<void, 1>>; using X2 = nop::ThreadLocal<uint32_t, nop::ThreadLocalIndexSlot<0>>;
+using X3 = nop::ThreadLocal<uint32_t, nop::ThreadLocalIndexSlot<1>>; using X4 = nop::ThreadLocal<uint32_t, nop::ThreadLocalSlot<SlotA, 0>>; using X5 = nop::ThreadLocal<uint32_t, nop::ThreadLocalSlot<SlotA, 1>>;
+using X6 = nop::ThreadLocal<uint32_t, nop::ThreadLocalSlot<SlotB, 0>>; using X7 = nop::ThreadLocal<uint32_t, nop::ThreadLocalTypeSlot<SlotA>>; using X8 = nop::ThreadLocal<uint32_t, nop::ThreadLocalTypeSlot<SlotB>>;
+static void tl_cross_slots(int round, int tid, Rng& r, bool yields, TlReport* rp) {
+  auto val = [&](int k, int phase) { return (uint32_t)(0x40000000u ^ ((uint32_t)round << 16) ^ ((uint32_t)tid << 8) ^ ((uint32_t)k << 4) ^ (uint32_t)phase); };
+  X0 x0{val(0, 1)}; X1 x1{val(1, 1)}; X2 x2{val(2, 1)}; boundary(tid, r, yields); X3 x3{val(3, 1)}; X4 x4{val(4, 1)}; X5 x5{val(5, 1)}; X6 x6{val(6, 1)}; X7 x7{val(7, 1)}; X8 x8{val(8, 1)};
+  uint32_t* p[9] = {&x0.Get(), &x1.Get(), &x2.Get(), &x3.Get(), &x4.Get(), &x5.Get(), &x6.Get(), &x7.Get(), &x8.Get()};
+  auto fail = [&](const std::string& m) { if (rp->err.empty()) rp->err = m; };
+  for (int i = 0; i < 9; i++) { if (*p[i] != val(i, 1)) { fail(fmt("slot-not-private|slot form %d of one value type holds %x after every form was initialised with its own value (expected %x): another slot's initialisation is visible", i, *p[i], val(i, 1))); return; }
+    for (int j = 0; j < i; j++) if (p[i] == p[j]) { fail(fmt("slot-not-private|slot forms %d and %d of one value type share one thread-local value", j, i)); return; } }
+  boundary(tid, r, yields);
+  for (int i = 0; i < 9; i++) { *p[i] = val(i, 2); for (int j = 0; j < 9; j++) if (*p[j] != val(j, j <= i ? 2 : 1)) { fail(fmt("slot-not-private|a write through slot form %d changed slot form %d", i, j)); return; } }
+  // Clear in one slot is not observable from another
+  x2.Clear(); x7.Clear(); boundary(tid, r, yields);
+  { X0 a{7u}; X1 b{7u}; X3 c{7u}; X4 d{7u}; X5 e{7u}; X6 f{7u}; X8 g{7u};
+    if (a.Get() != val(0, 2) || b.Get() != val(1, 2) || c.Get() != val(3, 2) || d.Get() != val(4, 2) || e.Get() != val(5, 2) || f.Get() != val(6, 2) || g.Get() != val(8, 2)) { fail("slot-not-private|Clear of one slot emptied another slot of the same value type"); return; }
+    X2 h{val(2, 3)}; X7 i{val(7, 3)}; if (h.Get() != val(2, 3) || i.Get() != val(7, 3)) { fail("value-survives-clear|cross-slot test"); return; } }
+  x0.Clear(); x1.Clear(); x2.Clear(); x3.Clear(); x4.Clear(); x5.Clear(); x6.Clear(); x7.Clear(); x8.Clear();
+}
 static void tl_work(int round, int tid, Rng& r, bool yields, TlReport* rp) {
+  tl_cross_slots(round, tid, r, yields, rp); if (!rp->err.empty()) return;
   tl_u64<TL0>(round, tid, 0, r, yields, rp); tl_u64<TL1>(round, tid, 1, r, yields, rp); tl_u64<TL2>(round, tid, 2, r, yields, rp);
   std::string s1 = fmt("r%d-t%d-s3", round, tid), s2 = fmt("r%d-t%d-s4", round, tid);
   { TL3 a{s1}; TL4 b{s2}; boundary(tid, r, yields); if (a.Get() != s1 || b.Get() != s2) { if (rp->err.empty()) rp->err = fmt("first-initialisation-lost|string slots: got '%s' / '%s', initialised '%s' / '%s'", a.Get().c_str(), b.Get().c_str(), s1.c_str(), s2.c_str()); return; }
